@@ -13,8 +13,8 @@ import (
 
 func init() {
 	register(&propCheck{
-		ID:  "C18",
-		Run: runC18,
+		ID:    "C18",
+		Run:   runC18,
 		Level: "Static analysis (bit-lane abstract interpretation of every method of the builder + constructor summary of the field constructor). Decides the statement: effect/<method> — each of the builder's methods changes, on its single path, exactly one bit k of the value word (to 1 for Set*, to 0 for Unset*) and sets the same bit k of the mask word, leaving all 62 other bits of both words the bits they were, with k the CS_* bit (spec/codes.json ct_state_bits, from OVS lib/packets.h) of the flag the method is named for, and the sixteen (polarity, k) pairs pairwise distinct; init — the builder starts with both words zero; writers — nothing else in the module stores to the two words; field — the match-field constructor copies the value word to the value and the mask word to the mask of a masked NXM_NX_CT_STATE field unconditionally, and both are encoded as 4 big-endian bytes. From these per-method summaries the history property follows by induction: a call touches bit k of both words and nothing else, so after any sequence mask bit k is set iff some call touched k and value bit k is the polarity of the last such call. Lane vectors cover all 2^64 builder states at once (not only the 6,561 reachable ones).",
 		Assumptions: []string{
 			"spec/codes.json ct_state_bits transcribes the OVS CS_* bit positions",
